@@ -303,12 +303,88 @@ Definition prop_same_on_every_evaluation (args : list bytes) : bytes :=
   | _ => bs "badargs"
   end.
 
+(* ---- insertion order with a (type, state_key) supplied more than once ---- *)
+Definition decode_orders (j : json) : list (list nat) :=
+  match j with
+  | JArr l => map (fun o => match o with JArr is => map jnat is | _ => [] end) l
+  | _ => []
+  end.
+
+(* [ver; event; orders; signature table of the event; inserted event ...] -> allowed9 for the
+   list in every order (find_auth: the later event of a key wins; one_room: all events supplied) *)
+Definition run_order (args : list bytes) : bytes :=
+  match args with
+  | ver :: ev :: orders :: sigs :: pool =>
+      match flags_of_version ver, parse_json ev, parse_json orders, parse_json sigs, parse_all pool with
+      | Some f, Some e, Some os, Some tbl, Some evs =>
+          let so := fun (_ : json) => table_oracle (sig_table tbl) in
+          join_bytes comma
+            (map (fun o => verdict_bytes (Some (allowed9 so f e (map (fun k => nth k evs JNull) o))))
+                 (decode_orders os))
+      | _, _, _, _, _ => bs "badargs"
+      end
+  | _ => bs "badargs"
+  end.
+
+(* the indices whose event the provider holds after inserting in this order: the last of each key *)
+Fixpoint winners (key : nat -> bytes * bytes) (o : list nat) : list nat :=
+  match o with
+  | [] => []
+  | i :: r => if existsb (fun j => tuple_eqb (key i) (key j)) r then winners key r else i :: winners key r
+  end.
+Definition same_set (a b : list nat) : bool :=
+  forallb (fun x => existsb (Nat.eqb x) b) a && forallb (fun x => existsb (Nat.eqb x) a) b.
+
+Fixpoint orders_agree (key : nat -> bytes * bytes) (os : list (list nat)) (vs : list bytes) : bool :=
+  match os, vs with
+  | o :: os', v :: vs' =>
+      (fix scan (l : list (list nat)) (ws : list bytes) : bool :=
+         match l, ws with
+         | o2 :: l', w :: ws' =>
+             (negb (same_set o o2 && (length o =? length o2)%nat
+                    && same_set (winners key o) (winners key o2)) || bytes_eqb v w) && scan l' ws'
+         | _, _ => true
+         end) os' vs' && orders_agree key os' vs'
+  | [], [] => true
+  | _, _ => false
+  end.
+
+(* specification side, on the implementation's verdicts: two insertion orders of the same events
+   that leave the provider holding the same events carry the same verdict *)
+Definition prop_order_of_duplicates (args : list bytes) : bytes :=
+  match last_arg args with
+  | Some (_ver :: _ev :: orders :: _sigs :: pool, obs) =>
+      match parse_json orders, parse_all pool with
+      | Some os, Some evs =>
+          let key := fun i => ev_key (nth i evs JNull) in
+          if orders_agree key (decode_orders os) (split_commas obs) then bs "ok"
+          else bs "FAIL the verdict depends on the insertion order: " ++ obs
+      | _, _ => bs "badargs"
+      end
+  | _ => bs "badargs"
+  end.
+
+(* [...; observable = a | b]: the state after the real authAndApplyEvents loop is the state after
+   checking every event on its own *)
+Definition prop_halves_equal (args : list bytes) : bytes :=
+  match last_arg args with
+  | Some (_, obs) =>
+      match split_at 124 obs with
+      | Some (a, b) => if bytes_eqb a b then bs "ok" else bs "FAIL loop=" ++ a ++ bs " alone=" ++ b
+      | None => bs "badargs"
+      end
+  | None => bs "badargs"
+  end.
+
 Definition ops_C09 : list (bytes * (list bytes -> bytes)) :=
   [ (bs "C09.state_needed", run_state_needed);
     (bs "C09.needed_proto", run_needed_proto);
     (bs "C09.add_auth_events", run_add_auth_events);
     (bs "C09.sequence", run_sequence);
     (bs "C09.repeat", run_repeat);
+    (bs "C09.order", run_order);
+    (bs "C09.prop.order_of_duplicates", prop_order_of_duplicates);
+    (bs "C09.prop.halves_equal", prop_halves_equal);
     (bs "C09.prop.same_on_every_evaluation", prop_same_on_every_evaluation);
     (bs "C09.prop.add_auth_events_covers", prop_add_auth_events_covers);
     (bs "C09.prop.reuse_transparent", prop_reuse_transparent);
